@@ -67,6 +67,7 @@ JudgeSearch(a, e) ==
     ELSE IF e.ids # WantIds(a, e.srch) THEN "Search returned wrong ranks"
     ELSE IF e.sol2 # e.sol \/ e.ids2 # e.ids THEN "repeating the search with the same searchers gives a different result"
     ELSE IF ~e.dawg_same THEN "the search changed the Dawg"
+    ELSE IF ~e.args_same THEN "a searcher changed the byte slice it was constructed from"
     ELSE IF \E i \in 1..Len(e.proto) : ProtoWhy(e.srch[i], e.proto[i], SInit(e.srch[i])) # ""
          THEN ProtoWhy(e.srch[CHOOSE i \in 1..Len(e.proto) : ProtoWhy(e.srch[i], e.proto[i], SInit(e.srch[i])) # ""],
                        e.proto[CHOOSE i \in 1..Len(e.proto) : ProtoWhy(e.srch[i], e.proto[i], SInit(e.srch[i])) # ""],
